@@ -34,7 +34,7 @@ class C09(ParamsProp):
     def corpus(self):
         return [dict(c) for c in CLAUSES] + super().corpus()
 
-    families = {"both_flags": 200, "wide_mapping": 25, "empty_const": 200, "null_const": 150, "odd_keys": 80, "same_value_layers": 200}
+    families = {"both_flags": 200, "wide_mapping": 25, "empty_const": 200, "null_const": 150, "odd_keys": 80, "same_value_layers": 200, "wide_layer_lookup": 120}
 
     def base_cases(self, tier, seed):
         N = 1500 if tier == "quick" else 40000
